@@ -1312,7 +1312,7 @@ func TestRawAndNonASCIIReplies(t *testing.T) {
 			// Raw with explicit Code overriding the digits.
 			return &Action{Raw: []byte("250-only a continuation line\r\n"), Code: 250}
 		case StageRset:
-			return &Action{Raw: []byte{}} // nothing at all, but "replied"
+			return &Action{Raw: []byte{}, Code: 250} // nothing on the wire, but it counts as 250
 		}
 		return nil
 	}})
@@ -1333,11 +1333,18 @@ func TestRawAndNonASCIIReplies(t *testing.T) {
 		t.Fatalf("%q %v", l, err)
 	}
 	c.send("RSET")
-	c.cmd("QUIT", 221) // nothing was sent for RSET; next reply is QUIT's
+	c.send("EHLO again.test") // nothing was sent for RSET; next reply is EHLO's
+	c.expect(250)
+	c.cmd("MAIL FROM:<two@b.test>", 250)
+	c.cmd("RCPT TO:<ok@d.test> X", 550) // raw again
+	c.cmd("QUIT", 221)
 	waitIdle(t, s)
 	cr := oneConn(t, s)
 	if cr.Txns[0].Rcpts[0].Code != 550 || !cr.Txns[0].Reset {
 		t.Fatalf("%+v", cr.Txns[0])
+	}
+	if rs := cr.Commands[6]; rs.Line != "RSET" || rs.ReplyCode != 250 || rs.Reply != "" || rs.ReplyAt.IsZero() {
+		t.Fatalf("%+v", rs)
 	}
 	if cr.Commands[2].Reply != "250-2.1.0 "+weird+"\r\n250 2.1.0 "+weird+" 2\r\n" {
 		t.Fatalf("%q", cr.Commands[2].Reply)
@@ -1573,5 +1580,31 @@ func TestScriptForces354OutsideTransaction(t *testing.T) {
 	tx := oneConn(t, s).Txns[0]
 	if tx.MailCode != 0 || string(tx.Data) != "orphan\r\n" || !tx.Committed || tx.CommittedRcpts != nil {
 		t.Fatalf("%+v", tx)
+	}
+}
+
+func TestRawGarbageAtDotCommitsNothing(t *testing.T) {
+	s := newServer(t, Config{Script: scriptFor(StageDot, &Action{Raw: []byte("garbage, no code\r\n")})})
+	c := dialRaw(t, s)
+	c.expect(220)
+	c.cmd("EHLO a.test", 250)
+	c.cmd("MAIL FROM:<a@b.test>", 250)
+	c.cmd("RCPT TO:<c@d.test>", 250)
+	c.cmd("DATA", 354)
+	c.write([]byte("x\r\n.\r\n"))
+	c.c.SetReadDeadline(time.Now().Add(5 * time.Second))
+	if l, err := c.br.ReadString('\n'); err != nil || l != "garbage, no code\r\n" {
+		t.Fatalf("%q %v", l, err)
+	}
+	c.cmd("QUIT", 221)
+	waitIdle(t, s)
+	cr := oneConn(t, s)
+	tx := cr.Txns[0]
+	if tx.Committed || tx.CommittedRcpts != nil || tx.DotCode != 0 || !tx.DataReceived {
+		t.Fatalf("%+v", tx)
+	}
+	dot := cr.Commands[5]
+	if dot.Line != "." || dot.ReplyCode != 0 || dot.Reply != "garbage, no code\r\n" || dot.ReplyAt.IsZero() {
+		t.Fatalf("%+v", dot)
 	}
 }
